@@ -311,6 +311,50 @@ Definition sub_byset (fq this : Z) (interval start : Z) (given : option (list Z)
     else Ok (Some (sortu l), OVals (sortu l))
   end.
 
+(* bymonth: derived from the start (YEARLY without day parts and without BYMONTH) or sorted(set()) *)
+Definition c_month (derive : bool) (m0 : Z) (k : option (list Z)) : option (list Z) * oent Z :=
+  if derive && isNone k then (Some [m0], ONone)
+  else match k with Some l => (Some (sortu l), OVals (sortu l)) | None => (None, OAbsent) end.
+
+(* byyearday, byweekno: sorted(set()); byeaster: sorted() *)
+Definition c_sortu (k : option (list Z)) : option (list Z) * oent Z :=
+  match k with Some l => (Some (sortu l), OVals (sortu l)) | None => (None, OAbsent) end.
+Definition c_sort (k : option (list Z)) : option (list Z) * oent Z :=
+  match k with Some l => (Some (sort l), OVals (sort l)) | None => (None, OAbsent) end.
+
+(* bymonthday / bynmonthday *)
+Definition c_mday (derive : bool) (d0 : Z) (k : option (list Z)) : list Z * list Z * oent Z :=
+  let given := if derive then Some [d0] else k in
+  let pos := match given with Some l => filter (fun x => 0 <? x) (sortu l) | None => [] end in
+  let neg := match given with Some l => filter (fun x => x <? 0) (sortu l) | None => [] end in
+  (pos, neg, if derive then ONone else match given with Some _ => OVals (pos ++ neg) | None => OAbsent end).
+
+(* byweekday / bynweekday *)
+Definition isplain (fq : Z) (w : wd) : bool :=
+  match wn w with None => true | Some n => (n =? 0) || (1 <? fq) end.
+Definition wd_pair (w : wd) : Z * Z := (wday w, match wn w with Some n => n | None => 0 end).
+Definition c_wday (derive : bool) (fq w0 : Z) (k : option (list wd))
+  : option (list Z) * option (list (Z * Z)) * oent wd :=
+  let given := if derive then Some [mkwd w0 None] else k in
+  match given with
+  | None => (None, None, if derive then ONone else OAbsent)
+  | Some l =>
+    let plain := sortu (map wday (filter (isplain fq) l)) in
+    let nth := sortp (map wd_pair (filter (fun w => negb (isplain fq w)) l)) in
+    (match plain with [] => None | _ => Some plain end,
+     match plain with [] => Some nth | _ => match nth with [] => None | _ => Some nth end end,
+     if derive then ONone
+     else OVals (map (fun x => mkwd x None) plain ++ map (fun p => mkwd (fst p) (Some (snd p))) nth))
+  end.
+
+(* timeset: datetime.time(hour, minute, second) raises ValueError out of range *)
+Definition bad_time (fq : Z) (hs ms ss : list Z) : bool :=
+  let bad lim l := existsb (fun x => negb ((0 <=? x) && (x <=? lim))) l in
+  (fq <? 4) && negb (isnil hs) && negb (isnil ms) && negb (isnil ss)
+  && (bad 23 hs || bad 59 ms || bad 59 ss).
+
+Definition olist (o : option (list Z)) : list Z := match o with Some l => l | None => [] end.
+
 Definition ctor (ev : env) (dtstart : option dt) (kw : kwargs) : res rule :=
   match k_freq kw with
   | None => Err EType                 (* rrule() missing required argument 'freq' *)
@@ -341,59 +385,13 @@ Definition ctor (ev : env) (dtstart : option dt) (kw : kwargs) : res rule :=
     let yearly := nodayparts && (fq =? 0) in
     let monthly := nodayparts && (fq =? 1) in
     let weekly := nodayparts && (fq =? 2) in
-    let bymonth := if yearly && isNone (k_bymonth kw) then Some [dmo start] else k_bymonth kw in
-    let o_month0 : oent Z := if yearly && isNone (k_bymonth kw) then ONone else OAbsent in
-    let bymonthday := if yearly || monthly then Some [dd start] else k_bymonthday kw in
-    let o_mday0 : oent Z := if yearly || monthly then ONone else OAbsent in
-    let byweekday := if weekly then Some [mkwd (Cal.weekday (dy start) (dmo start) (dd start)) None]
-                     else k_byweekday kw in
-    let o_wday0 : oent wd := if weekly then ONone else OAbsent in
-    (* bymonth *)
-    let r_month := match bymonth with Some l => Some (sortu l) | None => None end in
-    let o_month := match o_month0, r_month with
-                   | OAbsent, Some l => OVals l
-                   | o, _ => o
-                   end in
-    (* byyearday *)
-    let r_yday := match k_byyearday kw with Some l => Some (sortu l) | None => None end in
-    let o_yday := match r_yday with Some l => OVals l | None => OAbsent end in
-    (* byeaster: sorted, duplicates kept *)
-    let r_easter := match k_byeaster kw with Some l => Some (sort l) | None => None end in
-    let o_easter := match r_easter with Some l => OVals l | None => OAbsent end in
-    (* bymonthday *)
-    let r_mday := match bymonthday with Some l => filter (fun x => 0 <? x) (sortu l) | None => [] end in
-    let r_nmday := match bymonthday with Some l => filter (fun x => x <? 0) (sortu l) | None => [] end in
-    let o_mday := match o_mday0, bymonthday with
-                  | OAbsent, Some _ => OVals (r_mday ++ r_nmday)
-                  | o, _ => o
-                  end in
-    (* byweekno *)
-    let r_weekno := match k_byweekno kw with Some l => Some (sortu l) | None => None end in
-    let o_weekno := match r_weekno with Some l => OVals l | None => OAbsent end in
-    (* byweekday / bynweekday *)
-    let isplain (w : wd) := match wn w with None => true | Some n => (n =? 0) || (1 <? fq) end in
-    let plain := match byweekday with
-                 | Some l => sortu (map wday (filter isplain l)) | None => [] end in
-    let nth := match byweekday with
-               | Some l => sortp (map (fun w => (wday w, match wn w with Some n => n | None => 0 end))
-                                      (filter (fun w => negb (isplain w)) l))
-               | None => [] end in
-    let r_wday := match byweekday with
-                  | None => None
-                  | Some _ => match plain with [] => None | _ => Some plain end end in
-    let r_nwday := match byweekday with
-                   | None => None
-                   | Some _ => match plain with
-                               | [] => Some nth
-                               | _ => match nth with [] => None | _ => Some nth end
-                               end end in
-    let o_wday := match o_wday0, byweekday with
-                  | OAbsent, Some _ =>
-                    OVals (map (fun x => mkwd x None) (match r_wday with Some l => l | None => [] end) ++
-                           map (fun p => mkwd (fst p) (Some (snd p))) (match r_nwday with Some l => l | None => [] end))
-                  | o, _ => o
-                  end in
-    (* byhour / byminute / bysecond *)
+    let '(r_month, o_month) := c_month yearly (dmo start) (k_bymonth kw) in
+    let '(r_yday, o_yday) := c_sortu (k_byyearday kw) in
+    let '(r_easter, o_easter) := c_sort (k_byeaster kw) in
+    let '(r_mday, r_nmday, o_mday) := c_mday (yearly || monthly) (dd start) (k_bymonthday kw) in
+    let '(r_weekno, o_weekno) := c_sortu (k_byweekno kw) in
+    let '(r_wday, r_nwday, o_wday) :=
+        c_wday weekly fq (Cal.weekday (dy start) (dmo start) (dd start)) (k_byweekday kw) in
     match sub_byset fq 4 interval (dh start) (k_byhour kw) 24 with
     | Err e => Err e
     | Ok (r_hour, o_hour) =>
@@ -403,13 +401,7 @@ Definition ctor (ev : env) (dtstart : option dt) (kw : kwargs) : res rule :=
     match sub_byset fq 6 interval (ds start) (k_bysecond kw) 60 with
     | Err e => Err e
     | Ok (r_second, o_second) =>
-      (* timeset: datetime.time(hour, minute, second) range errors *)
-      let hs := match r_hour with Some l => l | None => [] end in
-      let ms := match r_minute with Some l => l | None => [] end in
-      let ss := match r_second with Some l => l | None => [] end in
-      let bad lim l := existsb (fun x => negb ((0 <=? x) && (x <=? lim))) l in
-      if (fq <? 4) && negb (isnil hs) && negb (isnil ms) && negb (isnil ss)
-         && (bad 23 hs || bad 59 ms || bad 59 ss)
+      if bad_time fq (olist r_hour) (olist r_minute) (olist r_second)
       then Err EValue
       else Ok (mkrule start fq interval wkst (k_count kw) until
                       (k_bysetpos kw) r_month r_mday r_nmday r_yday r_easter r_weekno
@@ -537,14 +529,13 @@ Record acc := mkacc { a_rr : list str; a_rd : list str; a_xr : list str; a_xd : 
 
 (* one line of the property loop *)
 Definition do_line (o : opts) (names : list str) (line : str) (a : acc) : res acc :=
-  match line with
-  | [] => Ok a
-  | _ =>
-    let '(name, value) := match split1 58 line with
-                          | None => (s_RRULE, line)
-                          | Some (n, v) => (n, v)
-                          end in
-    match split_on 59 name with
+  if isnil line then Ok a else
+    let nv := match split1 58 line with
+              | None => (s_RRULE, line)
+              | Some (n, v) => (n, v)
+              end in
+    let value := snd nv in
+    match split_on 59 (fst nv) with
     | [] => Err EValue
     | pname :: parms =>
       if leqb pname s_RRULE then
@@ -573,8 +564,7 @@ Definition do_line (o : opts) (names : list str) (line : str) (a : acc) : res ac
         | Ok _ => Err EValue
         end
       else Err EValue
-    end
-  end.
+    end.
 
 Fixpoint do_lines (o : opts) (names : list str) (lines : list str) (a : acc) : res acc :=
   match lines with
@@ -670,9 +660,8 @@ Definition shortcut (forceset : bool) (s : str) (lines : list str) : bool :=
 Definition parse_upper (ev : env) (o0 : opts) (names : list str) (s : str) : result :=
   let forceset := o_forceset o0 || o_compatible o0 in
   let unfold := o_unfold o0 || o_compatible o0 in
-  match strip s with
-  | [] => RErr EValue                       (* "empty string" *)
-  | _ =>
+  if isnil (strip s) then RErr EValue       (* "empty string" *)
+  else
     let lines := get_lines unfold s in
     if shortcut forceset s lines then
       match lines with
@@ -682,8 +671,7 @@ Definition parse_upper (ev : env) (o0 : opts) (names : list str) (s : str) : res
                    end
       | [] => RErr EIndex                   (* unreachable: len(lines) == 1 *)
       end
-    else general ev o0 forceset names lines
-  end.
+    else general ev o0 forceset names lines.
 
 Definition parse_rfc (ev : env) (o0 : opts) (s0 : str) : result :=
   if negb (forallb is_ascii s0) then RErr EUnmodelled
